@@ -15,7 +15,7 @@ Decided structurally:
 Not decided: TOCTOU races between the type test and the operation; kernel semantics.
 """
 from .lib.effects import Effects, MUTATING
-from .lib.guards import conditions
+from .lib.guards import conditions, conditions_ctx
 from .lib.paths import sbom_formats_covered, LayerPaths, cls_str, strip, _listed_from
 from .lib.value import vstr, walk
 
@@ -43,7 +43,7 @@ def _nofollow_root(v, path_value):
 
 def established(fn, bb, path_value, slicer):
     """is 'path_value is a real directory / not a symlink' established on every path reaching bb"""
-    for c in conditions(fn, bb, slicer):
+    for c in conditions_ctx(fn.prog, fn, bb, slicer):
         if c.kind != 'bool':
             continue
         for value, outcome in c.views():
@@ -129,15 +129,16 @@ def run(ctx, rep):
             rep.check(bool(w), 'R1b', 'remover/recursion-guard', c.where(), 'recursion guarded by ' + str(w),
                       'recursion into a child is not guarded by the entry\'s own no-follow is_dir(): a symlinked directory would be followed')
     for e in E.expand(rm, 'may'):
-        if e.kind in MUTATING and e.call.fn.path == rm.path:
+        if e.kind in MUTATING and (e.call.fn.path == rm.path or e.call.fn.path.startswith(rm.path + '::{closure')):
             k = LP.classify(e.path)
             subj = 'remover/%s' % e.call.name
             ok = k is not None and (k == ('DIR',) or k[0] == 'CHILD')
             rep.check(ok, 'R2', subj, e.where(), '%s on %s' % (e.kind, 'the argument' if k == ('DIR',) else 'a listed entry'),
                       '%s on a path that is neither the argument nor one of its entries: %s' % (e.kind, vstr(e.path)[:120]))
             if e.kind == 'REMOVE_FILE' and ok and k[0] == 'CHILD':
-                conds = [c for c in conditions(rm, e.call.bb, sl) if c.kind == 'bool' and c.value[0] == 'call'
-                         and c.value[1] == 'std::fs::FileType::is_dir' and c.outcome is False and _nofollow_root(c.value, e.path)]
+                conds = [c for c in conditions_ctx(prog, e.call.fn, e.call.bb, sl) if c.kind == 'bool' and c.value[0] == 'call'
+                         and c.value[1] == 'std::fs::FileType::is_dir' and c.outcome is False
+                         and (_nofollow_root(c.value, e.path) or _nofollow_root(c.value, sl.operand(e.call.fn, e.call.args[0])))]
                 rep.check(bool(conds), 'R1b', 'remover/unlink-guard', e.where(), 'non-directories (incl. symlinks) are unlinked, not followed',
                           'remove_file on an entry is not the else-branch of the no-follow is_dir test')
             if e.kind in ('REMOVE_TREE',):
